@@ -15,7 +15,7 @@ ID = "C38"
 ENGINE = "net"
 LEVEL = "exploration"
 TECHNIQUE = "deterministic simulation: seeded write grouping + wire segmentation between two real TelnetTransports"
-QUICK_RUNS = 8000
+QUICK_RUNS = 60000
 BATCH = 200
 COMPONENTS = {"real": ["twisted.conch.telnet.TelnetTransport.write/writeSequence", "twisted.conch.telnet.Telnet.dataReceived"],
               "stub": ["TCP transport and delivery segmentation (detsim.net.Link)"]}
@@ -73,9 +73,15 @@ def run(sim):
     for i in range(nwrites):
         if sim.draw_bool(0.4, "use_seq"):
             parts = [sim.draw_bytes(sim.draw_int(0, 6, "len"), ALPHABET) for _ in range(sim.draw_int(1, 4, "nparts"))]
-            sim.event("writeSequence", *parts)
-            a.writeSequence(parts)
+            # ITransport.writeSequence takes any iterable of bytes: a list, a tuple, or a one-shot iterator / generator
+            kind = sim.draw_choice(["list", "tuple", "iter", "generator"], "iovec")
+            sim.event("writeSequence", kind, *parts)
+            arg = parts if kind == "list" else tuple(parts) if kind == "tuple" else iter(parts) if kind == "iter" else (p for p in parts)
+            with sim.guard("sender-raised", "writeSequence"):
+                a.writeSequence(arg)
             sim.probe("writeSequence")
+            if kind in ("iter", "generator"):
+                sim.probe("writeSequence_one_shot_iterable")
             for p in parts:
                 sent += p
         else:
